@@ -14,6 +14,7 @@ import typing as t
 from ..cfg import CFG, Node, cfg_of
 from ..dataflow import ReachingDefs
 from ..fold import Folder, RegexConst, Unfoldable, class_of_items, sre_c, sre_parse
+from ..guards import canon
 from ..loader import AnalysisError, ClassInfo, FuncInfo, dotted, is_self_attr, norm, walk_no_nested
 
 # ---------------------------------------------------------------------------
@@ -2129,3 +2130,787 @@ class ReadFlow:
         end = inn[cfg.exit.id]
         self.exit_status = {f.status for f in end}
         self._lose(end, self.fi.node, "the generator ends before the bytes of the last read were yielded")
+
+
+# ---------------------------------------------------------------------------
+# R1.8: path executor.  The entry method is run from every protocol state with the helpers that touch the
+# state / the buffer inlined; along a path the protocol state is concrete, locals hold symbolic values (pure
+# boolean structure over opaque tokens - one token per binding site of a value that is not understood), and
+# every condition that is pure over tokens is decided once per path (so `more = m is None` ... `if m is not
+# None` ... `if more` agree).  Conditions that read attributes or call something are followed both ways.
+
+
+class PathState:
+    __slots__ = ("state", "val", "events")
+
+    def __init__(self, state: str, val: dict[str, bool] | None = None, events: tuple = ()):
+        self.state = state
+        self.val = dict(val or {})
+        self.events = events
+
+    def copy(self) -> "PathState":
+        return PathState(self.state, self.val, self.events)
+
+
+class PathExec:
+    MAX_VISITS = 4
+
+    def __init__(self, repo, roles: Roles, ts: Typestate, splitter: FuncInfo, lower_of: dict[int, ast.AST | None], limit: int = 60000):
+        self.repo, self.r, self.ts, self.splitter, self.lower_of = repo, roles, ts, splitter, lower_of
+        self.limit = limit
+        self.steps = 0
+        self.origin: dict[str, ast.AST] = {}
+
+    # -- symbolic values ----------------------------------------------------------------------------------
+    def _member_attr(self, m: str) -> ast.AST:
+        return ast.Attribute(value=ast.Name(id=self.r.enum, ctx=ast.Load()), attr=m, ctx=ast.Load())
+
+    def _is_member(self, e: ast.AST) -> str | None:
+        if isinstance(e, ast.Attribute) and isinstance(e.value, ast.Name) and e.value.id == self.r.enum and e.attr in self.r.members:
+            return e.attr
+        return None
+
+    def pure(self, e: ast.AST | None) -> bool:
+        if e is None or isinstance(e, (ast.Constant, ast.Name)):
+            return True
+        if isinstance(e, ast.Attribute):
+            return self._is_member(e) is not None
+        if isinstance(e, ast.Compare):
+            return self.pure(e.left) and all(self.pure(c) for c in e.comparators)
+        if isinstance(e, ast.BoolOp):
+            return all(self.pure(v) for v in e.values)
+        if isinstance(e, ast.UnaryOp):
+            return self.pure(e.operand)
+        if isinstance(e, ast.IfExp):
+            return self.pure(e.test) and self.pure(e.body) and self.pure(e.orelse)
+        if isinstance(e, (ast.Tuple, ast.List, ast.Set)):
+            return all(self.pure(x) for x in e.elts)
+        if self._bool_call(e) is not None:
+            return self.pure(self._bool_call(e))
+        return False
+
+    @staticmethod
+    def _bool_call(e: ast.AST | None) -> ast.AST | None:
+        """``bool(x)`` -> x"""
+        if isinstance(e, ast.Call) and isinstance(e.func, ast.Name) and e.func.id == "bool" and len(e.args) == 1 and not e.keywords:
+            return e.args[0]
+        return None
+
+    @staticmethod
+    def _boolean_shaped(e: ast.AST) -> bool:
+        return isinstance(e, (ast.Compare, ast.BoolOp)) or (isinstance(e, ast.UnaryOp) and isinstance(e.op, ast.Not)) or PathExec._bool_call(e) is not None \
+            or (isinstance(e, ast.Constant) and isinstance(e.value, bool))
+
+    def token(self, name: str, fi: FuncInfo, site: ast.AST | None, value: ast.AST | None, tag: str = "") -> ast.AST:
+        tid = f"{name}@{fi.name}:{getattr(site, 'lineno', 0)}{tag}"
+        if value is not None:
+            self.origin[tid] = value
+        return ast.Name(id=tid, ctx=ast.Load())
+
+    def storable(self, v: ast.AST, name: str, fi: FuncInfo, site: ast.AST | None, tag: str = "") -> ast.AST:
+        if self.pure(v):
+            return v
+        if isinstance(v, ast.Tuple) and not any(isinstance(x, ast.Starred) for x in v.elts):  # a tuple stays a tuple of values
+            return ast.Tuple(elts=[self.storable(x, name, fi, site, f"{tag}[{i}]") for i, x in enumerate(v.elts)], ctx=ast.Load())
+        return self.token(name, fi, site, v, tag)
+
+    def expand(self, e: ast.AST | None, fi: FuncInfo, env: dict[str, ast.AST], cv: dict[int, ast.AST], ps: PathState) -> ast.AST | None:
+        """the expression with locals replaced by their symbolic values, the protocol state by its current member, inlined
+        calls by what they returned on this path, casts removed"""
+        if e is None:
+            return None
+        if isinstance(e, ast.Name):
+            return env.get(e.id, e) if isinstance(e.ctx, ast.Load) else e
+        if isinstance(e, ast.Constant):
+            return e
+        if isinstance(e, ast.Call):
+            if id(e) in cv:
+                return cv[id(e)]
+            if (dotted(e.func) or "").endswith("cast") and len(e.args) == 2 and not e.keywords:
+                return self.expand(e.args[1], fi, env, cv, ps)
+        if is_self_attr(e, self.r.state) and isinstance(e.ctx, ast.Load):  # type: ignore[attr-defined]
+            return self._member_attr(ps.state)
+        if isinstance(e, ast.NamedExpr):
+            v = self.expand(e.value, fi, env, cv, ps)
+            assert v is not None
+            v = self.storable(v, e.target.id, fi, e)
+            env[e.target.id] = v
+            return v
+        if isinstance(e, (ast.Lambda, ast.ListComp, ast.SetComp, ast.DictComp, ast.GeneratorExp)):
+            return e
+        if isinstance(e, ast.Subscript) and isinstance(e.ctx, ast.Load) and isinstance(e.slice, ast.Constant) and isinstance(e.slice.value, int):
+            base = self.expand(e.value, fi, env, cv, ps)
+            if isinstance(base, ast.Tuple) and -len(base.elts) <= e.slice.value < len(base.elts) and not any(isinstance(x, ast.Starred) for x in base.elts):
+                return base.elts[e.slice.value]  # `res = helper(...)` ... `res[2]`
+            return ast.Subscript(value=base, slice=e.slice, ctx=e.ctx)
+        if isinstance(e, ast.Attribute) and isinstance(e.ctx, ast.Load) and isinstance(e.value, ast.Name) and e.value.id in env:
+            base = env[e.value.id]
+            made = self.origin.get(base.id) if isinstance(base, ast.Name) else None
+            if isinstance(made, ast.Call) and not any(isinstance(a, ast.Starred) for a in made.args) and all(k.arg for k in made.keywords):
+                d = dotted(made.func)
+                fq = self.repo.resolve(fi.module, d) if d else None
+                c = self.repo.try_cls(fq) if fq else None
+                if c is not None and c.module is self.r.cls.module and "dataclass" in " ".join(norm(x) for x in c.node.decorator_list):
+                    fields = [st.target.id for k in reversed(self.repo.mro(c)) if isinstance(k, ClassInfo) for st in k.node.body if isinstance(st, ast.AnnAssign) and isinstance(st.target, ast.Name)]
+                    given = dict(zip(fields, made.args))
+                    given.update({k.arg: k.value for k in made.keywords})  # type: ignore[misc]
+                    if e.attr in given:
+                        return given[e.attr]  # a field of an event built on this path, as it was given to the constructor
+        kw: dict[str, t.Any] = {}
+        for f, v in ast.iter_fields(e):
+            if isinstance(v, list):
+                kw[f] = [self.expand(x, fi, env, cv, ps) if isinstance(x, ast.AST) else x for x in v]
+            elif isinstance(v, ast.AST) and not isinstance(v, (ast.expr_context, ast.operator, ast.boolop, ast.unaryop, ast.cmpop)):
+                kw[f] = self.expand(v, fi, env, cv, ps)
+            else:
+                kw[f] = v
+        return type(e)(**kw)
+
+    # -- truth ---------------------------------------------------------------------------------------------
+    def _members_of(self, e: ast.AST, fi: FuncInfo) -> list[str] | None:
+        if isinstance(e, ast.Name):
+            vs = fi.module.assigns.get(e.id)
+            if vs and len(vs) == 1:
+                e = vs[0]
+        elif isinstance(e, ast.Attribute) and isinstance(e.value, ast.Name) and e.value.id in ("self", "cls", self.r.cls.name) and e.attr in self.r.cls.attrs \
+                and not any(is_self_attr(x, e.attr) and isinstance(x.ctx, ast.Store) for f in self.r.cls.methods.values() for x in walk_no_nested(f.node)):  # type: ignore[attr-defined]
+            e = self.r.cls.attrs[e.attr]
+        return enum_members(e, self.r.enum, self.r.members)
+
+    def truth(self, e: ast.AST, fi: FuncInfo, ps: PathState) -> list[tuple[bool, PathState]]:
+        """possible truth values of an expanded condition, each with the path state that records the decision"""
+        self._tick()
+        if isinstance(e, ast.Constant):
+            return [(bool(e.value), ps)]
+        if isinstance(e, ast.UnaryOp) and isinstance(e.op, ast.Not):
+            return [(not b, p) for b, p in self.truth(e.operand, fi, ps)]
+        if isinstance(e, ast.BoolOp):
+            is_and = isinstance(e.op, ast.And)
+            done: list[tuple[bool, PathState]] = []
+            cur = [ps]
+            for v in e.values:
+                nxt = []
+                for p in cur:
+                    for b, p2 in self.truth(v, fi, p):
+                        if b != is_and:
+                            done.append((b, p2))  # short circuit
+                        else:
+                            nxt.append(p2)
+                cur = nxt
+            return done + [(is_and, p) for p in cur]
+        if isinstance(e, ast.IfExp):
+            out = []
+            for b, p in self.truth(e.test, fi, ps):
+                out += self.truth(e.body if b else e.orelse, fi, p)
+            return out
+        if self._bool_call(e) is not None:
+            return self.truth(self._bool_call(e), fi, ps)  # type: ignore[arg-type]
+        if isinstance(e, ast.Compare) and len(e.ops) == 1:
+            op, lhs, rhs = e.ops[0], e.left, e.comparators[0]
+            neg = isinstance(op, (ast.NotEq, ast.IsNot, ast.NotIn))
+            if isinstance(op, (ast.Eq, ast.Is, ast.NotEq, ast.IsNot)):
+                for x, y in ((lhs, rhs), (rhs, lhs)):  # `flag is True` / `flag == False` with flag a condition
+                    if isinstance(y, ast.Constant) and isinstance(y.value, bool) and self._boolean_shaped(x) and not isinstance(x, ast.Constant):
+                        return [((b == y.value) != neg, p) for b, p in self.truth(x, fi, ps)]
+                a, b = self._is_member(lhs), self._is_member(rhs)
+                if a is not None and b is not None:
+                    return [((a == b) != neg, ps)]
+                if isinstance(lhs, ast.Constant) and isinstance(rhs, ast.Constant):
+                    same = (lhs.value is rhs.value) if isinstance(op, (ast.Is, ast.IsNot)) else (lhs.value == rhs.value and type(lhs.value) is type(rhs.value))
+                    return [(same != neg, ps)]
+                if (a is not None and isinstance(rhs, ast.Constant)) or (b is not None and isinstance(lhs, ast.Constant)):
+                    return [(neg, ps)]  # a member is not a literal
+            if isinstance(op, (ast.In, ast.NotIn)):
+                a = self._is_member(lhs)
+                ms = self._members_of(rhs, fi)
+                if a is not None and ms is not None:
+                    return [((a in ms) != neg, ps)]
+        if self.pure(e):
+            k, pos = canon(e)
+            if k in ps.val:
+                return [(ps.val[k] == pos, ps)]
+            out = []
+            for b in (True, False):
+                p = ps.copy()
+                p.val[k] = (b == pos)
+                out.append((b, p))
+            return out
+        return [(True, ps.copy()), (False, ps.copy())]
+
+    def decided(self, e: ast.AST, fi: FuncInfo, ps: PathState) -> ast.AST:
+        """a conditional expression whose test is already decided on this path -> the arm it selects"""
+        while isinstance(e, ast.IfExp):
+            if not self.pure(e.test):
+                break
+            probe = self.truth(e.test, fi, ps.copy())
+            if len(probe) != 1:
+                break
+            e = e.body if probe[0][0] else e.orelse
+        return e
+
+    def _tick(self) -> None:
+        self.steps += 1
+        if self.steps > self.limit:
+            raise AnalysisError(f"{self.r.entry.qualname}: more than {self.limit} steps while following the paths through the protocol states: not modelled")
+
+    # -- calls that are followed ------------------------------------------------------------------------------
+    def _inlined(self, fi: FuncInfo, c: ast.Call) -> FuncInfo | None:
+        callee = self.ts._callee(fi, c)
+        if callee is None or callee.module is not self.r.cls.module or not self.ts.relevant(callee):
+            return None  # (helpers of other modules do not see the decoder)
+        if any(isinstance(x, (ast.Yield, ast.YieldFrom)) for x in walk_no_nested(callee.node)):
+            return None
+        return callee
+
+    def _run_calls(self, fi: FuncInfo, n: Node, roots: list[ast.AST], env: dict[str, ast.AST], ps: PathState, stack: tuple) -> list[tuple[dict[int, ast.AST], PathState]]:
+        calls = [c for root in roots for c in [root, *walk_no_nested(root)] if isinstance(c, ast.Call) and self._inlined(fi, c) is not None]
+        calls.sort(key=lambda c: (getattr(c, "end_lineno", 0), getattr(c, "end_col_offset", 0)))
+        states: list[tuple[dict[int, ast.AST], PathState]] = [({}, ps)]
+        for c in calls:
+            callee = self._inlined(fi, c)
+            assert callee is not None
+            cur = getattr(c, "_parent", None)
+            while cur is not None and not isinstance(cur, ast.stmt) and all(cur is not r for r in roots):
+                if isinstance(cur, (ast.IfExp, ast.BoolOp, ast.ListComp, ast.SetComp, ast.DictComp, ast.GeneratorExp, ast.Lambda)):
+                    raise AnalysisError(f"{fi.loc(c)}: `{norm(c)}` changes the decoder's state inside a conditional expression / comprehension: not modelled")
+                cur = getattr(cur, "_parent", None)
+            if len(stack) > 6 or any(f is callee for f, _, _ in stack) or callee is fi:
+                raise AnalysisError(f"{fi.loc(c)}: recursive / too deeply nested helper `{callee.qualname}`: not modelled")
+            binding = bind_args(callee, c)
+            if binding is None:
+                raise AnalysisError(f"{fi.loc(c)}: arguments of `{norm(c)}` cannot be bound to the parameters of {callee.qualname}")
+            new: list[tuple[dict[int, ast.AST], PathState]] = []
+            for cv, p in states:
+                cenv: dict[str, ast.AST] = {}
+                for prm, arg in binding.items():
+                    v = self.expand(arg, fi, env, cv, p)
+                    assert v is not None
+                    cenv[prm] = self.storable(v, prm, callee, callee.node, ":arg")
+                p2 = p.copy()
+                if callee is self.splitter:
+                    p2.events += (("call", id(c), fi, c),)
+                for rv, p3 in self.run_func(callee, cenv, p2, stack + ((fi, c, n),)):
+                    cv2 = dict(cv)
+                    cv2[id(c)] = rv if rv is not None else ast.Constant(value=None)
+                    new.append((cv2, p3))
+            states = new
+        return states
+
+    # -- one function -----------------------------------------------------------------------------------------
+    def _in_loop(self, fi: FuncInfo, n: Node, what: str) -> None:
+        """the body of a `for` loop is followed once: an effect on the decoder in there is not modelled (a `while` loop is unrolled
+        with the protocol state concrete, up to a bound)"""
+        cur = getattr(n.ast, "_parent", None)
+        while cur is not None and cur is not fi.node:
+            if isinstance(cur, (ast.For, ast.AsyncFor)):
+                raise AnalysisError(f"{fi.loc(n.ast)}: {what} inside a for loop: not modelled")
+            cur = getattr(cur, "_parent", None)
+
+    def run_func(self, fi: FuncInfo, env: dict[str, ast.AST], ps: PathState, stack: tuple = ()) -> list[tuple[ast.AST | None, PathState]]:
+        """all normal exits: (returned value, path state)"""
+        cfg = cfg_of(fi)
+        results: list[tuple[ast.AST | None, PathState]] = []
+        work: list[tuple[Node, dict[str, ast.AST], PathState, dict[int, int], ast.AST | None]] = [(cfg.entry, env, ps, {}, None)]
+        while work:
+            n, env, ps, visits, rv = work.pop()
+            self._tick()
+            if n is cfg.exit:
+                results.append((rv, ps))
+                continue
+            if n is cfg.raise_exit:
+                continue
+            seen = visits.get(n.id, 0)
+            if seen >= self.MAX_VISITS:
+                raise AnalysisError(f"{fi.loc(n.ast)}: a loop of {fi.qualname} is run more than {self.MAX_VISITS - 1} times on a path through the protocol states: not modelled")
+            visits = dict(visits)
+            visits[n.id] = seen + 1
+            for s, l in n.succs:
+                if l == "exc":
+                    work.append((s, dict(env), ps.copy(), visits, rv))
+            for labels, env2, ps2, rv2 in self._step(fi, n, env, ps, stack, seen):
+                for s, l in n.succs:
+                    if l in ("exc", "raise"):
+                        continue
+                    if labels is None or l in labels:
+                        work.append((s, dict(env2), ps2.copy(), visits, rv2 if rv2 is not None else rv))
+        return results
+
+    def _step(self, fi: FuncInfo, n: Node, env: dict[str, ast.AST], ps: PathState, stack: tuple, seen: int):
+        a = n.ast
+        if a is None or n.kind in ("entry", "join", "handler") or isinstance(a, (ast.FunctionDef, ast.AsyncFunctionDef, ast.ClassDef)):
+            return [(None, env, ps, None)]
+        if n.kind == "loop":
+            out = []
+            for cv, p in self._run_calls(fi, n, [a.iter], env, ps, stack):  # type: ignore[attr-defined]
+                e2 = dict(env)
+                for x in ast.walk(a.target):  # type: ignore[attr-defined]
+                    if isinstance(x, ast.Name):
+                        e2[x.id] = self.token(x.id, fi, a, None, ":for")
+                out.append((("T", "F") if seen == 0 else ("F",), e2, p, None))
+            return out
+        if n.kind == "with":
+            out = []
+            for cv, p in self._run_calls(fi, n, [it.context_expr for it in a.items], env, ps, stack):  # type: ignore[attr-defined]
+                e2 = dict(env)
+                for it in a.items:  # type: ignore[attr-defined]
+                    if it.optional_vars is not None:
+                        for x in ast.walk(it.optional_vars):
+                            if isinstance(x, ast.Name):
+                                e2[x.id] = self.token(x.id, fi, a, None, ":with")
+                out.append((None, e2, p, None))
+            return out
+        if n.kind == "test":
+            out = []
+            for cv, p in self._run_calls(fi, n, [a], env, ps, stack):
+                e2 = dict(env)
+                cond = self.expand(a, fi, e2, cv, p)
+                assert cond is not None
+                for b, p2 in self.truth(cond, fi, p):
+                    out.append((("T",) if b else ("F",), e2, p2, None))
+            return out
+        # simple statement
+        out = []
+        for cv, p in self._run_calls(fi, n, [a], env, ps, stack):
+            out += self._effect(fi, n, a, dict(env), cv, p, stack)
+        return out
+
+    def _assign_state(self, fi: FuncInfo, n: Node, a: ast.AST, value: ast.AST, env, cv, p: PathState, stack: tuple) -> list[PathState]:
+        self._in_loop(fi, n, "assignment to the protocol state")
+        v = self.expand(value, fi, env, cv, p)
+        assert v is not None
+        outs: list[PathState] = []
+
+        def settle(x: ast.AST, q: PathState) -> None:
+            m = self._is_member(x)
+            if m is not None:
+                q2 = q.copy()
+                q2.state = m
+                q2.events += (("state", m),)
+                outs.append(q2)
+            elif isinstance(x, ast.IfExp):
+                for b, q2 in self.truth(x.test, fi, q):
+                    settle(x.body if b else x.orelse, q2)
+            else:
+                vals = self.ts.state_values(fi, value, n, tuple(stack))
+                if not vals:
+                    raise AnalysisError(f"{fi.loc(a)}: `{norm(a)}` assigns something other than a {self.r.enum} member")
+                for m2 in sorted(vals):
+                    q2 = q.copy()
+                    q2.state = m2
+                    q2.events += (("state", m2),)
+                    outs.append(q2)
+
+        settle(v, p)
+        return outs
+
+    def _effect(self, fi: FuncInfo, n: Node, a: ast.AST, env: dict[str, ast.AST], cv: dict[int, ast.AST], p: PathState, stack: tuple):
+        tgts: list[ast.AST] = []
+        value: ast.AST | None = None
+        if isinstance(a, ast.Assign):
+            tgts, value = list(a.targets), a.value
+        elif isinstance(a, ast.AnnAssign) and a.value is not None:
+            tgts, value = [a.target], a.value
+        elif isinstance(a, ast.AugAssign):
+            if is_self_attr(a.target, self.r.state):
+                raise AnalysisError(f"{fi.loc(a)}: augmented assignment to the protocol state is not modelled")
+            if isinstance(a.target, ast.Name):
+                env[a.target.id] = self.token(a.target.id, fi, a, None, ":aug")
+        states: list[tuple[dict[str, ast.AST], PathState]] = [(env, p)]
+        if value is not None:
+            v = self.expand(value, fi, env, cv, p)
+            assert v is not None
+            states = []
+            for x, q in [(self.decided(v, fi, p), p)]:
+                e2 = dict(env)
+                qs = [q]
+                for tg in tgts:
+                    if isinstance(tg, ast.Name):
+                        e2[tg.id] = self.storable(x, tg.id, fi, a)
+                    elif isinstance(tg, (ast.Tuple, ast.List)):
+                        if any(is_self_attr(y, self.r.state) for y in ast.walk(tg)):
+                            raise AnalysisError(f"{fi.loc(a)}: tuple assignment to the protocol state is not modelled")
+                        flat = [y for y in tg.elts]
+                        for i, y in enumerate(flat):
+                            if isinstance(y, ast.Starred):
+                                y = y.value
+                            if isinstance(y, ast.Name):
+                                if isinstance(x, (ast.Tuple, ast.List)) and len(x.elts) == len(flat) and not any(isinstance(z, ast.Starred) for z in x.elts + flat):
+                                    e2[y.id] = self.storable(x.elts[i], y.id, fi, a, f":{i}")
+                                else:
+                                    e2[y.id] = self.token(y.id, fi, a, None, f":{i}")
+                            else:
+                                for z in ast.walk(y):
+                                    if isinstance(z, ast.Name) and isinstance(z.ctx, ast.Store):
+                                        e2[z.id] = self.token(z.id, fi, a, None, f":{i}")
+                    elif is_self_attr(tg, self.r.state):
+                        qs = [q3 for q2 in qs for q3 in self._assign_state(fi, n, a, value, env, cv, q2, stack)]
+                states += [(e2, q2) for q2 in qs]
+        out = []
+        for e2, q in states:
+            rv = None
+            if isinstance(a, ast.Return):
+                rv = self.expand(a.value, fi, e2, cv, q) if a.value is not None else ast.Constant(value=None)
+                if fi is self.splitter:
+                    if id(a) not in self.lower_of:
+                        raise AnalysisError(f"{fi.loc(a)}: `{norm(a)}`: a return of {fi.qualname} whose payload is not understood")
+                    lo = self.lower_of[id(a)]
+                    lo = self.expand(lo, fi, e2, cv, q) if lo is not None else None
+                    lo = self.decided(lo, fi, q) if lo is not None else None
+
+                    def is_zero(x: ast.AST | None) -> bool:
+                        return x is None or (isinstance(x, ast.Constant) and x.value == 0 and not isinstance(x.value, bool))
+
+                    def arms_of(x: ast.AST | None) -> list[ast.AST | None]:
+                        return arms_of(x.body) + arms_of(x.orelse) if isinstance(x, ast.IfExp) else [x]
+
+                    zeros = {is_zero(x) for x in arms_of(lo)}
+                    if len(zeros) > 1:
+                        raise AnalysisError(f"{fi.loc(a)}: whether the payload starts behind a skipped line break (`{norm(lo)}`) depends on a condition that is open on this path: not modelled")
+                    q3 = q.copy()
+                    q3.events += (("ret", not zeros.pop(), norm(lo) if lo is not None else "0"),)
+                    out.append((None, e2, q3, rv))
+                    continue
+            elif isinstance(a, ast.Expr):
+                self.expand(a.value, fi, e2, cv, q)  # walrus bindings
+            # buffer deletions
+            if not isinstance(a, (ast.FunctionDef, ast.AsyncFunctionDef, ast.ClassDef)):
+                for x in walk_no_nested(a):
+                    if self.ts.is_buf(x, fi) and self.ts._buffer_effect_node(x) == "shift":
+                        self._in_loop(fi, n, "deletion from the buffer")
+                        amount: ast.AST | None = None
+                        par = getattr(x, "_parent", None)
+                        if isinstance(a, ast.Delete) and isinstance(par, ast.Subscript) and isinstance(par.slice, ast.Slice) and par.slice.step is None and par.slice.upper is not None \
+                                and (par.slice.lower is None or (isinstance(par.slice.lower, ast.Constant) and par.slice.lower.value == 0)):
+                            amount = self.expand(par.slice.upper, fi, e2, cv, q)
+                        q = q.copy()
+                        q.events += (("del", amount, fi, a),)
+                        break
+            out.append((None, e2, q, rv))
+        return out
+
+    # -- the entry method from one protocol state ---------------------------------------------------------------
+    def paths_from(self, state: str) -> list[PathState]:
+        return [p for _, p in self.run_func(self.r.entry, {}, PathState(state))]
+
+    def deleted_nothing(self, amount: ast.AST | None, p: PathState) -> bool:
+        """the deleted length is known to be 0 on this path"""
+        if amount is None:
+            return False
+        if isinstance(amount, ast.Constant):
+            return amount.value == 0
+        if self.pure(amount):
+            k, pos = canon(amount)
+            return k in p.val and (p.val[k] == pos) is False
+        return False
+
+
+# ---------------------------------------------------------------------------
+# R1.9: what the form parser does with the payload of a Data event.  A field's value must be a function of the
+# concatenation of its payloads; the payload boundaries follow the read buffer size.  So every payload has to be
+# collected as received (or through a byte-wise map), and the collected list may only be joined with an empty
+# separator, element by element as they are.
+
+
+class FieldFlow:
+    ACC = {"append", "write", "extend"}
+    IDENT = {"bytes", "bytearray", "memoryview"}
+    BYTEWISE = {"upper", "lower", "swapcase", "translate", "hex"}  # c(a + b) == c(a) + c(b): not chunk dependent
+    QUERY = {"startswith", "endswith", "find", "rfind", "index", "rindex", "count", "isascii", "isalnum", "isalpha", "isdigit", "isspace", "islower", "isupper", "istitle", "__len__"}
+
+    def __init__(self, repo, flow: "EventFlow", owners: list[tuple[FuncInfo, str]]):
+        self.repo, self.flow = repo, flow
+        self.owners = owners
+        self.cls_name, self.attr = self._payload_field()
+        self.reads: list[dict[str, t.Any]] = []
+        self.scope: list[FuncInfo] = []
+        self._seen: set[tuple[str, frozenset]] = set()
+        self._used: set[tuple[int, tuple]] = set()
+        self.callsites: dict[str, list[tuple[FuncInfo, ast.Call]]] = {}
+        todo: list[tuple[FuncInfo, str | None, frozenset]] = [(fi, d, frozenset()) for fi, d in owners]
+        while todo:
+            fi, dec, evp = todo.pop(0)
+            if (fi.fq, evp) in self._seen or len(self._seen) > 40:
+                continue
+            self._seen.add((fi.fq, evp))
+            if all(fi is not x for x in self.scope):
+                self.scope.append(fi)
+            todo += self._scan(fi, dec, evp)
+
+    # -- which attribute of which event class is the payload -------------------------------------------------
+    def _payload_field(self) -> tuple[str, str]:
+        cands = []
+        for name in sorted(self.flow.universe):
+            c = self.flow.module.classes.get(name)
+            if c is None:
+                continue
+            fields = [(st.target.id, norm(st.annotation)) for st in c.node.body if isinstance(st, ast.AnnAssign) and isinstance(st.target, ast.Name)]
+            flags = [f for f, a in fields if a == "bool"]
+            blobs = [f for f, a in fields if a in ("bytes", "bytearray", "memoryview")]
+            if flags and len(blobs) == 1:
+                cands.append((name, blobs[0]))
+        if len(cands) != 1:
+            raise AnalysisError(f"{self.flow.module.relpath}: expected one event class with a bytes payload and a `more data` flag, found {cands}")
+        return cands[0]
+
+    # -- which names hold an event ---------------------------------------------------------------------------
+    def is_event(self, fi: FuncInfo, x: ast.AST, n: Node, dec: str | None, evp: frozenset, depth: int = 0) -> bool:
+        x = _uncast(x)  # type: ignore[assignment]
+        if isinstance(x, ast.NamedExpr):
+            return self.is_event(fi, x.value, n, dec, evp, depth)
+        if isinstance(x, ast.Call):
+            if self.flow.dec_method(fi, x, n, dec) == self.flow.fetch:
+                return True
+            # a helper that is handed the decoder (argument, closure, attribute of self) and returns what next_event returned
+            callee = self.flow.callee(fi, x) if depth <= 4 else None
+            p = self.flow.dec_param(fi, callee, x, dec) if callee is not None else None
+            if callee is None or p is None or any(isinstance(y, (ast.Yield, ast.YieldFrom)) for y in walk_no_nested(callee.node)):
+                return False
+            rets = [r for r in walk_no_nested(callee.node) if isinstance(r, ast.Return) and r.value is not None]
+            ccfg = cfg_of(callee)
+            return bool(rets) and all(ccfg.node_of(r) is not None and self.is_event(callee, r.value, ccfg.node_of(r), p, frozenset(), depth + 1) for r in rets)  # type: ignore[arg-type]
+        if not isinstance(x, ast.Name) or depth > 4:
+            return False
+        # the name is known to hold a payload event: an isinstance test with the payload class dominates the read
+        for tn, lab in cfg_of(fi).guards(n):
+            a = tn.ast
+            if tn.kind == "test" and lab == "T" and isinstance(a, ast.Call) and isinstance(a.func, ast.Name) and a.func.id == "isinstance" and len(a.args) == 2 \
+                    and isinstance(_uncast(a.args[0]), ast.Name) and _uncast(a.args[0]).id == x.id:  # type: ignore[union-attr]
+                cs = self.flow.classes_of(fi, a.args[1])
+                if cs is not None and cs == [self.cls_name] and self.flow.rd_of(fi).reaching(tn, x.id) == self.flow.rd_of(fi).reaching(n, x.id):
+                    return True
+        for d in self.flow.rd_of(fi).reaching(n, x.id):
+            if d.kind == "param" and x.id in evp:
+                return True
+            if d.kind in ("assign", "walrus") and d.index is None and d.value is not None and d.node is not None and self.is_event(fi, d.value, d.node, dec, evp, depth + 1):
+                return True
+            if d.kind == "for" and d.node is not None and d.index is None and (self.flow.sentinel_fetch(fi, d.node, dec) is not None or self.flow.generator_call(fi, d.node, dec) is not None):
+                return True
+        return False
+
+    def _scan(self, fi: FuncInfo, dec: str | None, evp: frozenset) -> list[tuple[FuncInfo, str | None, frozenset]]:
+        cfg = cfg_of(fi)
+        more: list[tuple[FuncInfo, str | None, frozenset]] = []
+        for x in walk_no_nested(fi.node):
+            if isinstance(x, ast.Attribute) and x.attr == self.attr and isinstance(x.ctx, ast.Load) and isinstance(_uncast(x.value), (ast.Name, ast.NamedExpr)):
+                n = cfg.node_of(x)
+                if n is not None and self.is_event(fi, x.value, n, dec, evp):
+                    rec = {"fi": fi, "node": x, "sinks": [], "neutral": [], "unknown": []}
+                    self.reads.append(rec)
+                    self.use(fi, x, (), rec, 0)
+            if isinstance(x, ast.Call):
+                n = cfg.node_of(x)
+                callee = self.flow.callee(fi, x)
+                if n is None or callee is None:
+                    continue
+                binding = bind_args(callee, x)
+                if binding is None:
+                    continue
+                ps = frozenset(p for p, a in binding.items() if isinstance(_uncast(a), ast.Name) and self.is_event(fi, a, n, dec, evp))
+                if ps:
+                    more.append((callee, self.flow.dec_param(fi, callee, x, dec), ps))
+                    self.callsites.setdefault(callee.fq, []).append((fi, x))
+        return more
+
+    def collectors(self, fi: FuncInfo, f: ast.AST, n: Node | None, depth: int = 0) -> list[tuple[FuncInfo, str]] | None:
+        """the callable is a bound `append` / `write` / `extend` of something -> what it collects into.  Followed through a local
+        that holds the bound method and through a parameter (read at every call site of the helper)"""
+        f = _uncast(f)  # type: ignore[assignment]
+        if isinstance(f, ast.Attribute) and f.attr in self.ACC:
+            return [(fi, norm(_uncast(f.value)))]  # type: ignore[arg-type]
+        if not isinstance(f, ast.Name) or n is None or depth > 3:
+            return None
+        defs = self.flow.rd_of(fi).reaching(n, f.id)
+        out: list[tuple[FuncInfo, str]] = []
+        for d in defs:
+            got = None
+            if d.kind == "assign" and d.index is None and d.value is not None:
+                got = self.collectors(fi, d.value, d.node, depth + 1)
+            elif d.kind == "param":
+                got = []
+                for cfi, call in self.callsites.get(fi.fq, []):
+                    binding = bind_args(fi, call)
+                    one = self.collectors(cfi, binding[f.id], cfg_of(cfi).node_of(call), depth + 1) if binding is not None and f.id in binding else None
+                    if one is None:
+                        got = None
+                        break
+                    got += one
+                got = got or None
+            if got is None:
+                return None
+            out += [g for g in got if all(g[0] is not o[0] or g[1] != o[1] for o in out)]
+        return sorted(out, key=lambda g: (g[0].fq, g[1])) or None
+
+    # -- what happens to a value that is (derived from) the payload ---------------------------------------------
+    def use(self, fi: FuncInfo, e: ast.AST, via: tuple, rec: dict[str, t.Any], depth: int) -> None:
+        key = (id(e), via)
+        if key in self._used or depth > 12:
+            return
+        self._used.add(key)
+        par = getattr(e, "_parent", None)
+        cfg = cfg_of(fi)
+
+        def sink(receiver: str | list[tuple[FuncInfo, str]], node: ast.AST) -> None:
+            homes = [(fi, receiver)] if isinstance(receiver, str) else receiver
+            rec["sinks"].append({"fi": fi, "node": node, "via": via, "receiver": " / ".join(sorted({r for _, r in homes})), "homes": homes})
+
+        def unknown(why: str, node: ast.AST | None = None) -> None:
+            rec["unknown"].append((fi, node or par or e, why))
+
+        call = par
+        if isinstance(par, ast.keyword):
+            call = getattr(par, "_parent", None)
+        if isinstance(call, ast.Call) and (any(e is a for a in call.args) or par is not call):
+            f = call.func
+            d = dotted(f) or ""
+            n = cfg.node_of(call)
+            if d == "len" or d == "isinstance" or d == "bool":
+                rec["neutral"].append(norm(call))
+            elif d in self.IDENT and len(call.args) == 1 and not call.keywords:
+                self.use(fi, call, via, rec, depth + 1)
+            elif d.endswith("cast") and len(call.args) == 2 and e is call.args[1]:
+                self.use(fi, call, via, rec, depth + 1)
+            elif d == "str" and (len(call.args) > 1 or call.keywords):
+                self.use(fi, call, via + ("str(..., encoding)",), rec, depth + 1)
+            elif d in ("codecs.decode",):
+                self.use(fi, call, via + ("codecs.decode",), rec, depth + 1)
+            elif self.collectors(fi, f, n) is not None:
+                sink(self.collectors(fi, f, n) or [], call)
+            else:
+                callee = self.flow.callee(fi, call)
+                binding = bind_args(callee, call) if callee is not None else None
+                if callee is None or binding is None:
+                    unknown(f"passed to `{norm(f)}`", call)
+                    return
+                ps = [p for p, a in binding.items() if a is e]
+                self.callsites.setdefault(callee.fq, [])
+                if all(call is not c for _, c in self.callsites[callee.fq]):
+                    self.callsites[callee.fq].append((fi, call))
+                rd2 = self.flow.rd_of(callee)
+                ccfg = cfg_of(callee)
+                for p in ps:
+                    for x in walk_no_nested(callee.node):
+                        if isinstance(x, ast.Name) and x.id == p and isinstance(x.ctx, ast.Load):
+                            xn = ccfg.node_of(x)
+                            if xn is not None and any(dd.kind == "param" for dd in rd2.reaching(xn, p)):
+                                self.use(callee, x, via, rec, depth + 1)
+                if all(callee is not s for s in self.scope):
+                    self.scope.append(callee)
+            return
+        if isinstance(par, ast.Attribute) and par.value is e:
+            gp = getattr(par, "_parent", None)
+            if isinstance(gp, ast.Call) and gp.func is par:
+                if par.attr in self.BYTEWISE:
+                    self.use(fi, gp, via, rec, depth + 1)
+                elif par.attr in self.QUERY:
+                    rec["neutral"].append(norm(gp))
+                else:
+                    self.use(fi, gp, via + (par.attr,), rec, depth + 1)
+            else:
+                unknown(f"attribute `{par.attr}` of the payload is read")
+            return
+        if isinstance(par, ast.Subscript) and par.value is e:
+            sl = par.slice
+            full = isinstance(sl, ast.Slice) and sl.lower is None and sl.upper is None and sl.step is None
+            self.use(fi, par, via if full else via + (f"[{norm(sl)}]",), rec, depth + 1)
+            return
+        if isinstance(par, ast.NamedExpr) and par.value is e:
+            self._follow(fi, par.target.id, par, via, rec, depth)
+            self.use(fi, par, via, rec, depth + 1)
+            return
+        if isinstance(par, (ast.Assign, ast.AnnAssign)) and par.value is e:
+            tgts = par.targets if isinstance(par, ast.Assign) else [par.target]
+            for tg in tgts:
+                if isinstance(tg, ast.Name):
+                    self._follow(fi, tg.id, par, via, rec, depth)
+                elif isinstance(tg, (ast.Attribute, ast.Subscript)):
+                    sink(norm(tg), par)
+                else:
+                    unknown("unpacked")
+            return
+        if isinstance(par, ast.AugAssign) and par.value is e:
+            if isinstance(par.op, ast.Add):
+                sink(norm(par.target), par)
+            else:
+                unknown(f"`{norm(par)}`")
+            return
+        if isinstance(par, ast.BinOp) and isinstance(par.op, ast.Add):
+            other = par.right if par.left is e else par.left
+            gp = getattr(par, "_parent", None)
+            if isinstance(gp, ast.Assign) and len(gp.targets) == 1 and isinstance(gp.targets[0], (ast.Name, ast.Attribute)) and norm(gp.targets[0]) == norm(other) and par.left is other:
+                sink(norm(other), gp)  # acc = acc + payload
+            else:
+                unknown(f"concatenated with other material: `{norm(par)}`")
+            return
+        if isinstance(par, ast.IfExp) and par.test is not e:
+            self.use(fi, par, via, rec, depth + 1)
+            return
+        if isinstance(par, (ast.Compare, ast.BoolOp, ast.If, ast.While, ast.Assert, ast.Expr, ast.IfExp)) or (isinstance(par, ast.UnaryOp) and isinstance(par.op, ast.Not)):
+            rec["neutral"].append(norm(par)[:60])
+            return
+        if isinstance(par, ast.FormattedValue):
+            unknown("formatted into a string")
+            return
+        unknown(f"used in `{norm(par)[:80] if par is not None else '?'}`")
+
+    def _follow(self, fi: FuncInfo, name: str, stmt: ast.AST, via: tuple, rec: dict[str, t.Any], depth: int) -> None:
+        cfg = cfg_of(fi)
+        rd = self.flow.rd_of(fi)
+        sn = cfg.node_of(stmt)
+        for x in walk_no_nested(fi.node):
+            if isinstance(x, ast.Name) and x.id == name and isinstance(x.ctx, ast.Load):
+                xn = cfg.node_of(x)
+                if xn is not None and any(d.node is sn for d in rd.reaching(xn, name)):
+                    self.use(fi, x, via, rec, depth + 1)
+
+    # -- joins over the lists the payloads are collected in -------------------------------------------------------
+    def list_receivers(self) -> dict[str, tuple[FuncInfo, ast.AST]]:
+        """receivers of payload sinks that are locals bound to an empty list somewhere in their function"""
+        out: dict[str, tuple[FuncInfo, ast.AST]] = {}
+        for rec in self.reads:
+            for s in rec["sinks"]:
+                for fi, r in s["homes"]:
+                    for d in [x for ds in self.flow.rd_of(fi).gen.values() for x in ds if x.name == r]:
+                        v = _uncast(d.value)
+                        if d.kind == "assign" and d.index is None and ((isinstance(v, ast.List) and not v.elts) or (isinstance(v, ast.Call) and dotted(v.func) == "list" and not v.args)):
+                            out[f"{fi.fq}:{r}"] = (fi, d.stmt or v)
+        return out
+
+    def joins(self) -> list[dict[str, t.Any]]:
+        recv = self.list_receivers()
+        out = []
+        for key, (fi, _) in sorted(recv.items()):
+            r = key.rsplit(":", 1)[1]
+            for c in walk_no_nested(fi.node):
+                if not (isinstance(c, ast.Call) and isinstance(c.func, ast.Attribute) and c.func.attr == "join" and len(c.args) == 1 and not c.keywords):
+                    continue
+                arg = _uncast(c.args[0])
+                if not any(isinstance(x, ast.Name) and x.id == r for x in [arg, *ast.walk(arg)]):  # type: ignore[arg-type]
+                    continue
+                sep = c.func.value
+                if isinstance(sep, ast.Name) and sep.id not in self.flow.locals_of(fi):
+                    vs = fi.module.assigns.get(sep.id)
+                    if vs and len(vs) == 1:
+                        sep = vs[0]
+                if isinstance(sep, ast.Constant) and isinstance(sep.value, (bytes, str)):
+                    sep_ok: bool | None = len(sep.value) == 0
+                elif isinstance(sep, ast.Call) and dotted(sep.func) in ("bytes", "str", "bytearray") and not sep.args and not sep.keywords:
+                    sep_ok = True
+                else:
+                    sep_ok = None
+                elem: str | None = ""  # "" = the elements as they are, text = the transformation, None = not understood
+                if isinstance(arg, ast.Name):
+                    elem = ""
+                elif isinstance(arg, (ast.GeneratorExp, ast.ListComp)) and len(arg.generators) == 1 and isinstance(arg.generators[0].target, ast.Name) \
+                        and isinstance(_uncast(arg.generators[0].iter), ast.Name) and _uncast(arg.generators[0].iter).id == r:  # type: ignore[union-attr]
+                    g = arg.generators[0]
+                    elt = _uncast(arg.elt)
+                    while isinstance(elt, ast.Call) and dotted(elt.func) in self.IDENT and len(elt.args) == 1:
+                        elt = _uncast(elt.args[0])
+                    if isinstance(elt, ast.Name) and elt.id == g.target.id and not g.ifs:  # type: ignore[union-attr]
+                        elem = ""
+                    else:
+                        elem = norm(arg.elt) + ("" if not g.ifs else " if " + " if ".join(norm(i) for i in g.ifs))
+                else:
+                    elem = None
+                out.append({"fi": fi, "call": c, "receiver": r, "sep": sep, "sep_ok": sep_ok, "elem": elem})
+        return out
